@@ -3,10 +3,10 @@
 
   Regions of one `attrs[k] = v` / `del attrs[k]` as the source has them (Extracted.Attributes.setItemAtomic,
   delItemAtomic: every statement except the immutability test is inside `with self._lock`):
-    `start → atLock` : the immutability test, then the thread arrives at the lock (a frozen container raises here);
-    `atLock → done`  : the whole of the translated `setItem` / `delItem`, under the lock.
-  A schedule is a list of thread ids; each occurrence advances that thread by one region.  `log` is a ghost: the
-  operations in the order they went through the lock.
+    outside the lock : the immutability test, then the thread arrives at the lock (a frozen container raises here);
+    inside the lock  : the whole of the translated `setItem` / `delItem`.
+  `merge_in` is a sequence of such item assignments (`program`).  A schedule is a list of thread ids; each
+  occurrence advances that thread by one region.  `log` is a ghost: the item operations in lock order.
 
   `Stale.*` is NOT the code: it is the hypothetical variant in which cleaning and the "full?" decision are taken
   before the lock and only delete/evict/insert remain inside — kept to show (Props/C18) what the lock placement
@@ -17,29 +17,45 @@ import DeepModel.Model.Attributes
 namespace AttrConc
 open Attr Extracted.Attributes Attributes
 
-inductive Pc | start | atLock | done
-deriving DecidableEq, Repr
+/-- the item-level operations a writer performs, each through the lock on its own: `merge_in` is a loop of item
+    assignments (the lock is taken per item, so two `merge_in` calls can interleave item by item) -/
+def program : Op → List Op
+  | .mergeIn kvs => kvs.map (fun kv => Op.set kv.1 kv.2)
+  | op => [op]
+
+structure Thr where
+  rem : List Op            -- item-level operations still to do
+  atLock : Bool            -- the head operation passed its immutability test and waits for the lock
+  err : Option String      -- the exception that ended the writer
+deriving Repr
 
 structure Conc where
   st : BA
-  pcs : List Pc
-  errs : List (Option String)
-  log : List Op
+  thrs : List Thr
+  log : List (Nat × Op)    -- ghost: (writer, operation) in the order they went through the lock
 deriving Repr
 
-def Conc.init (st : BA) (ws : List Op) : Conc := ⟨st, ws.map (fun _ => Pc.start), ws.map (fun _ => none), []⟩
+def Conc.init (st : BA) (ws : List Op) : Conc := ⟨st, ws.map (fun w => ⟨program w, false, none⟩), []⟩
 
-def Conc.stepThr (ws : List Op) (s : Conc) (i : Nat) : Conc :=
-  match ws[i]?, s.pcs[i]? with
-  | some _, some .start =>
-    if s.st.frozen then { s with pcs := s.pcs.set i .done, errs := s.errs.set i (some "TypeError") }
-    else { s with pcs := s.pcs.set i .atLock }
-  | some w, some .atLock =>
-    let r := step s.st w
-    { st := r.1, pcs := s.pcs.set i .done, errs := s.errs.set i r.2, log := s.log ++ [w] }
-  | _, _ => s
+def Conc.stepThr (s : Conc) (i : Nat) : Conc :=
+  match s.thrs[i]? with
+  | none => s
+  | some t =>
+    if t.err.isSome then s else
+    match t.rem with
+    | [] => s
+    | op :: rest =>
+      if !t.atLock then
+        if s.st.frozen then { s with thrs := s.thrs.set i { t with err := some "TypeError" } }
+        else { s with thrs := s.thrs.set i { t with atLock := true } }
+      else
+        let r := step s.st op
+        { st := r.1, thrs := s.thrs.set i ⟨rest, false, r.2⟩, log := s.log ++ [(i, op)] }
 
-def Conc.run (ws : List Op) (s : Conc) (sched : List Nat) : Conc := sched.foldl (Conc.stepThr ws) s
+def Conc.run (s : Conc) (sched : List Nat) : Conc := sched.foldl Conc.stepThr s
+
+/-- what writer `i` has put through the lock so far -/
+def Conc.committed (s : Conc) (i : Nat) : List Op := (s.log.filter (fun e => e.1 == i)).map (·.2)
 
 /-! ### the hypothetical "decide before the lock" variant -/
 namespace Stale
